@@ -1,6 +1,6 @@
 package main
 
-// Configuration leg (attached to C05, C06, C08, C12): "the configured limit / list / period" of the property statements is what the
+// Configuration leg (attached to C05, C06, C08, C10, C12): "the configured limit / list / period" of the property statements is what the
 // operator wrote into the environment.  config.Process must hand exactly that to the components: every scalar is the value written,
 // the five domain lists are the entries written, lower-cased (Model.Policy.Config.process), the naming mode is decoded regardless of case,
 // and — downstream — the memory store enforces maxkb KiB, the retention scanner uses the period as given (0 = disabled).
@@ -21,7 +21,7 @@ import (
 )
 
 func init() {
-	for _, id := range []string{"C05", "C06", "C08", "C12"} {
+	for _, id := range []string{"C05", "C06", "C08", "C10", "C12"} {
 		id := id
 		prev := extra[id]
 		extra[id] = func(c *core.Ctx) {
